@@ -58,7 +58,7 @@ def selftest(pid, rep):
     out = tempfile.mktemp(prefix="selftest-", suffix=".json")
     env = dict(os.environ)
     env.pop("MDK_REPO", None)
-    r = subprocess.run([sys.executable, os.path.join(extract.VERIF, "engine", "selftest", "suite.py"), "--only", pid, "-j", "6", "--json", out],
+    r = subprocess.run([sys.executable, os.path.join(extract.VERIF, "engine", "selftest", "suite.py"), "--only", pid, "-j", "10", "--json", out],
                        capture_output=True, text=True, env=env)
     res = []
     if os.path.exists(out):
